@@ -7,8 +7,17 @@ U = ("C10", "C12")
 
 def apply(ctx, W):
     tr = W.file("semantic/type_registry.rs")
-    fn_into_verus(ctx, tr, "TypeRegistry::unresolved", mode="T", ret="r", tags=("C10",), ensures=[
-        "forall|p: ItemPath| #![trigger r@.contains(p)] r@.contains(p) <==> is_unresolved_item(self, p)"])
+    ty = W.file("semantic/types.rs")
+    fn_into_verus(ctx, ty, "ItemDefinition::is_resolved", ret="r", tags=("C10",), ensures=["r == (self.state is Resolved)"])
+    fn_into_verus(ctx, ty, "ItemDefinition::is_predefined", ret="r", tags=("C10",), ensures=["r == (self.category == ItemCategory::Predefined)"])
+    fu, uu = fn_into_verus(ctx, tr, "TypeRegistry::unresolved", ret="r", tags=("C10", "C12"), ensures=[
+        # what C10 needs, and no more (whether the built-ins category is filtered out is an implementation detail: the
+        # built-ins are always resolved): every listed path is a registered item that is not resolved, and no
+        # registered, non-predefined, unresolved item is missing
+        ("forall|p: ItemPath| #![trigger r@.contains(p)] r@.contains(p) ==> self.types@.contains_key(p) && !(self.types@[p].state is Resolved)", ("C10",), "unresolved-only"),
+        ("forall|p: ItemPath| #![trigger r@.contains(p)] is_unresolved_item(self, p) ==> r@.contains(p)", ("C10",), "unresolved-complete")])
+    mp, v, pred, (a, b) = rules.filter_keys_collect(tr, fu)
+    tr.replace(a, b, "crate::verif_prelude::v_filter_keys(&%s, |%s: &ItemDefinition| -> (keep: bool) ensures keep ==> !(%s.state is Resolved), !keep ==> (%s.category == crate::semantic::types::ItemCategory::Predefined || %s.state is Resolved), { %s })" % (mp, v, v, v, v, pred), "W9-R-std-filter-keys")
     ss = W.file("semantic/semantic_state.rs")
     b = ss.fn("SemanticState::build")
     loops = [l for l in ss.in_fn(b, ("loop",))]
